@@ -714,7 +714,9 @@ func (s *Stage) cleanStrays(minAge time.Duration) {
 			fileHash := s.getFileHash(filePath)
 			if fileState > stateReceived {
 				delete = comp == nil || comp.Hash == fileHash
-				deleteCmp = compExists && fileState == stateLogged
+				// The companion goes only together with the partial it describes; a
+				// companion with another hash belongs to a newer version in progress.
+				deleteCmp = delete && compExists && fileState == stateLogged
 				s.logDebug("Stray partial cache info:", relPath, fileState, fileHash)
 			} else {
 				end := time.Now()
